@@ -229,7 +229,86 @@ def check_framing(rep, fm, cli):
     check_all_separator(rep, fm, rule)
 
 
+def all_mode_stdout_by_evaluation(prog):
+    """What --all-pels writes to stdout, decided by running the summary of extractAllPELsData on sample directories:
+    every pattern of per-file outcomes (a document / filtered out / decode raises) over 0..4 files must give
+    '[' + documents joined by ',\\n' + ']' - however the separator is produced (flag, counter, separator string ...).
+    Returns None when it holds, a message when it does not; raises CannotEval when the summary cannot be run."""
+    import itertools
+    from ..terms import evaluate, CannotEval, Sym as _Sym
+    I = Interpreter(prog, hooks={"opaque": {PT + "parsePEL", PT + "getFileList", PT + "printPELInHexFormat"}})
+    cfg = I.new("pel.peltool.config.Config")
+    I.obj(cfg).attrs["hex"] = Const(False)
+    path = Sym("path")
+    I.call(PT + "extractAllPELsData", [path, cfg])
+    prints = [e for e in I.events if is_stdout_print(e)]
+    if not prints:
+        raise CannotEval("no stdout output in extractAllPELsData")
+    items = []
+    for e in prints:
+        kw = dict(e.data[1])
+        sep, end = kw.get("sep", Const(" ")), kw.get("end", Const("\n"))
+        parts = []
+        for i, a in enumerate(e.data[0]):
+            if i:
+                parts.append(sep)
+            parts.append(Op("str", a) if not is_const(a, str) else a)
+        parts.append(end)
+        text = Op("concat", *parts) if len(parts) > 1 else parts[0]
+        items.append(("rep", e.loops[-1], text, e.guard) if e.loops else ("v", text, e.guard))
+    loops = {it[1] for it in items if it[0] == "rep"}
+    if len(loops) != 1:
+        raise CannotEval("documents are not printed from one per-file loop")
+    L = loops.pop()
+    bad = None
+    n = 0
+    for nfiles in range(0, 5):
+        for outcome in itertools.product(("doc", "filtered", "raises"), repeat=nfiles):
+            names = ["f%d.pel" % i for i in range(nfiles)]
+
+            def cur(env):
+                i = env.get(L.idx)
+                if i is None or not (0 <= i < nfiles):
+                    raise CannotEval("decode result used outside the per-file loop")
+                return i
+
+            def parse_stub(env, *a):
+                i = cur(env)
+                return ("E%d" % i, "{DOC%d}" % i) if outcome[i] == "doc" else ("", "")
+            parse_stub.wants_env = True
+
+            def sym_hook(t, env, _inner=[None]):
+                if t.kind == "exc":
+                    i = env.get(L.idx)
+                    return i is not None and 0 <= i < nfiles and outcome[i] == "raises"
+                return _inner[0](t, env)
+            env = pelx.with_heap(I, {path: "/pels"})
+            inner = env["__sym__"]
+            env["__sym__"] = lambda t, e_, inner=inner: (sym_hook(t, e_, [inner]))
+            env["__ops__"] = {"call:" + PT + "parsePEL": parse_stub,
+                              "call:" + PT + "getFileList": lambda *a: ("/pels", list(names)),
+                              "file": lambda *a: "<file %s>" % (a[0],), "m:read": lambda *a: b"<data>",
+                              "call:os.path.join": lambda *a: "/".join(str(x) for x in a), "str": lambda x: str(x)}
+            got = "".join(pelx.eval_items(items, env))
+            docs = ["{DOC%d}" % i for i in range(nfiles) if outcome[i] == "doc"]
+            want = "[\n" + ",\n".join(docs) + ("\n" if docs else "") + "]\n"
+            n += 1
+            if got != want and bad is None:
+                bad = "%d files with outcomes %s: stdout is %r, a JSON array of the decoded documents is %r" % (nfiles, list(outcome), got, want)
+    return bad, n
+
+
 def check_all_separator(rep, fm, rule):
+    from ..terms import CannotEval
+    try:
+        bad, n = all_mode_stdout_by_evaluation(fm.prog if hasattr(fm, "prog") else fm.I.prog)
+        rep.count("--all-pels outcome patterns evaluated", n)
+        rep.check(bad is None, rule, "-a: stdout is '[' + the decoded documents joined by ',' + ']' for every pattern of per-file outcomes "
+                  "(document / filtered out / decode raises) over 0..4 files", PT + "extractAllPELsData", "print(',')",
+                  "the JSON array of --all-pels is not well-formed for every mix of files: %s" % bad)
+        return
+    except CannotEval as e:
+        rep.count("--all-pels summary not runnable (%s): decided from its shape" % str(e)[:50], 1)
     ev = fm.events
     # -a: separator depends only on "a document has already been printed"
     q = PT + "extractAllPELsData"
